@@ -144,7 +144,8 @@ def read_routines(
         if r["type"] == "COROUTINE":
             if "name" not in r:
                 raise ValueError("Target for a routine not set.")
-            named_coroutines.append(SsbCoroutine(-1, r["name"]))
+            # The id of a coroutine is its index in the list of routines, the decompiler looks the name up by it.
+            named_coroutines.append(SsbCoroutine(len(routine_infos), r["name"]))
             routine_infos.append(SsbRoutineInfo(SsbRoutineType.COROUTINE, -1))
             routine_ops.append(read_ops(r["ops"]))
         elif r["type"] == "GENERIC":
